@@ -31,6 +31,11 @@ CHECKS["C04"] = dict(
    text="Generated-input search with the oracle 'index the full result': for generated datasets, every attribute kind (stored, categorical, derived, linked, pixel, world), every selection kind and composite, and every supported view form, the viewed read must equal the full result indexed by the view (shape, dtype kind, NaN-equal values); IndexedData values, masks, statistics and histograms must equal those of the parent slice, also after its indices change.",
    note="Trusted: numpy indexing; the full (un-viewed) result is taken from glue itself, so only view consistency is established here. All-integer (0-d) views are counted, not asserted.",
    ref="DESIGN.md section 4 C04")
+CHECKS["C10"] = dict(
+   technique="property-based differential testing (Hypothesis): compute_statistic / compute_histogram vs. textbook numpy reducers and own binning, over chunk limits, views, axes, selections",
+   text="Generated-input search against a reference implementation: statistics (all six kinds) for generated data/selection/axis/view/filter/chunk-limit combinations must equal nan-aware numpy reducers over the selected filtered values with the viewed shape minus the axes; histograms (1-d, 2-d, log, weights, reversed ranges, samples on range ends) must equal own equal-width binning with edge slack checked through cumulative counts; IndexedData statistics with selection and axis are included.",
+   note="Trusted: numpy reducers and the selection mask as evaluated by glue (mask correctness is C01/C04/C08). A top-level SliceSubsetState with axis returns an undocumented compact shape, accepted when equal to the expected values on the slice; the plain-reducer corner (finite=False, no selection) is generated without NaN.",
+   ref="DESIGN.md section 4 C10")
 NOT_APPLICABLE = []
 
 def main():
